@@ -652,6 +652,7 @@ func writeEvidence(prop *Prop, tier string, seed int, results []*sx.RunResult, p
 		"coverage":    cov,
 		"assumptions": append([]string{
 			"reflect.* / unsafe.Add / fmt.Sprintf / math/bits are engine intrinsics (reflect over go/types with gc amd64 layout; fmt returns an opaque string)",
+			"encoding/json.Marshal / Unmarshal of integer arrays are an abstract lossless encoding (only Entity.MarshalJSON / UnmarshalJSON use them)",
 			"memory: byte-addressed typed blocks; slice growth follows runtime.growslice with the gc size classes",
 			"garbage collector, goroutines and floating point are not modelled",
 		}, prop.Assume...),
